@@ -97,9 +97,93 @@ def table():
     return out, extra
 
 
+def code_strings():
+    """String constants the reply path of the implementation compares against,
+    read from the imported modules (never raises: a missing one becomes the
+    sentinel string "?" so that the correspondence fails closed)."""
+    out = {}
+
+    def grab(name, fn):
+        try:
+            v = fn()
+            out[name] = v if isinstance(v, str) else "?"
+        except Exception:
+            out[name] = "?"
+    common.force_repo_path()
+    grab("uri_env11", lambda: __import__("suds.bindings.binding", fromlist=["x"]).envns[1])
+    grab("uri_env12", lambda: __import__("suds.bindings.binding", fromlist=["x"]).envns12[1])
+    grab("uri_xsi", lambda: __import__("suds.sax", fromlist=["x"]).Namespace.xsins[1])
+    grab("uri_xml", lambda: __import__("suds.sax.element", fromlist=["x"]).Element.specialprefixes["xml"])
+    return out
+
+
+SKIP_CANDIDATES = [
+    "http://www.w3.org/XML/1998/namespace",
+    "http://schemas.xmlsoap.org/soap/encoding/",
+    "http://schemas.xmlsoap.org/soap/envelope/",
+    "http://www.w3.org/2003/05/soap-envelope",
+    "http://www.w3.org/2001/XMLSchema",
+    "http://www.w3.org/2001/XMLSchema-instance",
+    "http://www.w3.org/1999/XMLSchema-instance",
+    "http://www.w3.org/2003/05/soap-encoding",
+    "http://schemas.xmlsoap.org/wsdl/",
+    "urn:fam:ns0",
+    "",
+]
+
+
+def skipped_uris():
+    """Which of the candidate attribute namespaces AttrList.skip filters out
+    (probed on the real class with stand-in attributes)."""
+    common.force_repo_path()
+    out = []
+    try:
+        from suds.umx.attrlist import AttrList
+
+        class A(object):
+            def __init__(self, u):
+                self.u = u
+
+            def namespace(self):
+                return ("p", self.u)
+        al = AttrList([])
+        for u in SKIP_CANDIDATES:
+            try:
+                if al.skip(A(u)):
+                    out.append(u)
+            except Exception:
+                pass
+    except Exception:
+        pass
+    return out
+
+
+def reserved_words():
+    common.force_repo_path()
+    try:
+        from suds.umx.core import reserved
+        return sorted((str(k), str(v)) for k, v in reserved.items())
+    except Exception:
+        return [("?", "?")]
+
+
 def gen():
     tags, extra = table()
     lines = [_hdr(NAME)]
+    cs = code_strings()
+    lines.append("(* string constants of the reply path, read from the imported code *)")
+    for k in sorted(cs):
+        lines.append("Definition %s : str := %s.  (* %s *)" % (k, common.cstr(cs[k]), cs[k]))
+    lines.append("(* attribute namespaces AttrList.skip filters (probed among fixed candidates) *)")
+    lines.append("Definition skip_uris : list str := [%s]." % "; ".join(common.cstr(u) for u in skipped_uris()))
+    lines.append("Definition skip_candidates : list str := [%s]." % "; ".join(common.cstr(u) for u in SKIP_CANDIDATES))
+    lines.append("(* suds.umx.core.reserved *)")
+    lines.append("Definition reserved_words : list (str * str) := [%s]."
+                 % "; ".join("(%s, %s)" % (common.cstr(a), common.cstr(b)) for a, b in reserved_words()))
+    lines.append("(* names of the XSD built-ins, by position *)")
+    lines.append("Definition builtin_names : list (str * N) := [%s]."
+                 % "; ".join("(%s, %d%%N)" % (common.cstr(n), i) for i, n in enumerate(XSD_BUILTINS)))
+    lines.append("")
     lines.append("(* Python type tags *)")
     for i, n in enumerate(TAG_NAMES):
         lines.append("Definition tag_%s : N := %d%%N." % (n.lower(), i))
